@@ -293,25 +293,37 @@ pub(crate) mod verif_probe {
         let usern = "verif_user".to_string();
         let log: SharedLog = Arc::new(Mutex::new(RefLog::default()));
         let csmap: ClientServerMap = Arc::new(Mutex::new(HashMap::new()));
-        let roles: Vec<String> = v["roles"].as_array().map(|a| a.iter().map(|x| x.as_str().unwrap().to_string()).collect()).unwrap_or(vec!["primary".to_string()]);
+        crate::query_router::QueryRouter::setup();
+        // shards: [[role, ...], ...]  (or the single-shard shorthand "roles")
+        let shard_roles: Vec<Vec<String>> = match v["shards"].as_array() {
+            Some(a) => a.iter().map(|s| s.as_array().unwrap().iter().map(|x| x.as_str().unwrap().to_string()).collect()).collect(),
+            None => vec![v["roles"].as_array().map(|a| a.iter().map(|x| x.as_str().unwrap().to_string()).collect()).unwrap_or(vec!["primary".to_string()])],
+        };
         let user = User { username: usern.clone(), password: None, auth_type: AuthType::Trust, pool_size: 1, ..User::default() };
-        let mut addrs = vec![]; let mut pools = vec![];
+        let mut all_addrs = vec![]; let mut all_pools = vec![];
         let cache_size = v["cache"].as_u64().unwrap_or(0) as usize;
         let auth_hash = Arc::new(RwLock::new(None));
-        for (i, r) in roles.iter().enumerate() {
-            let listener = TcpListener::bind("127.0.0.1:0").await.unwrap();
-            let port = listener.local_addr().unwrap().port();
-            tokio::spawn(ref_postgres(listener, log.clone(), i));
-            let a = Address { id: i, host: "127.0.0.1".to_string(), port, address_index: i, replica_number: i, shard: 0,
-                              role: if r == "primary" { Role::Primary } else { Role::Replica },
-                              database: db.clone(), username: usern.clone(), pool_name: db.clone(), ..Address::default() };
-            let manager = ServerPool::new(a.clone(), user.clone(), &db, csmap.clone(), auth_hash.clone(), None, true, false, cache_size);
-            pools.push(Pool::builder().max_size(1).connection_timeout(std::time::Duration::from_millis(1500)).test_on_check_out(false).build_unchecked(manager));
-            addrs.push(a);
+        let mut idx = 0usize;
+        for (si, roles) in shard_roles.iter().enumerate() {
+            let mut addrs = vec![]; let mut pools = vec![];
+            for (ri, r) in roles.iter().enumerate() {
+                let listener = TcpListener::bind("127.0.0.1:0").await.unwrap();
+                let port = listener.local_addr().unwrap().port();
+                tokio::spawn(ref_postgres(listener, log.clone(), idx));
+                let a = Address { id: idx, host: "127.0.0.1".to_string(), port, address_index: ri, replica_number: ri, shard: si,
+                                  role: if r == "primary" { Role::Primary } else { Role::Replica },
+                                  database: db.clone(), username: usern.clone(), pool_name: db.clone(), ..Address::default() };
+                let manager = ServerPool::new(a.clone(), user.clone(), &db, csmap.clone(), auth_hash.clone(), None, true, false, cache_size);
+                pools.push(Pool::builder().max_size(1).connection_timeout(std::time::Duration::from_millis(1500)).test_on_check_out(false).build_unchecked(manager));
+                addrs.push(a);
+                idx += 1;
+            }
+            all_addrs.push(addrs); all_pools.push(pools);
         }
+        let nshards = shard_roles.len();
         let session = v["mode"].as_str() == Some("session");
         let mut settings = PoolSettings { pool_mode: if session { PoolMode::Session } else { PoolMode::Transaction }, user: user.clone(), db: db.clone(),
-                                          healthcheck_delay: 3_600_000, ..PoolSettings::default() };
+                                          healthcheck_delay: 3_600_000, shards: nshards, ..PoolSettings::default() };
         if let Some(tables) = v["deny_tables"].as_array() {
             settings.query_parser_enabled = true;
             settings.plugins = Some(crate::config::Plugins { intercept: None, query_logger: None, prewarmer: None,
@@ -330,8 +342,8 @@ pub(crate) mod verif_probe {
         }
         if v["query_parser"].as_bool() == Some(true) { settings.query_parser_enabled = true; settings.query_parser_read_write_splitting = true; }
         let pool = ConnectionPool {
-            databases: Arc::new(vec![pools]), addresses: Arc::new(vec![addrs]),
-            banlist: Arc::new(RwLock::new(vec![HashMap::new()])), config_hash: 0,
+            databases: Arc::new(all_pools), addresses: Arc::new(all_addrs),
+            banlist: Arc::new(RwLock::new((0..nshards).map(|_| HashMap::new()).collect())), config_hash: 0,
             original_server_parameters: Arc::new(RwLock::new(ServerParameters::new())), auth_hash,
             settings: Arc::new(settings), validated: Arc::new(AtomicBool::new(false)),
             paused: Arc::new(AtomicBool::new(false)), paused_waiter: Arc::new(Notify::new()),
